@@ -1,0 +1,11 @@
+//go:build verif
+
+package archiver
+
+// BucketCountForVerif returns the number of per-host rate limiter buckets (-1 when the limiter is off).
+func BucketCountForVerif() int {
+	if globalBucketManager == nil {
+		return -1
+	}
+	return globalBucketManager.BucketCountForVerif()
+}
